@@ -92,6 +92,11 @@ func runC07(r *core.Run) {
 			cases = append(cases, fileCase{Writer: "ours", W: 2, Chunker: ch, L: L, K: 4099, Pattern: "distinct"})
 		}
 	}
+	// very wide nodes: the reference puts Maxlinks links into one node whatever
+	// the block size that gives
+	for _, wl := range [][2]int{{32768, 22310}, {32768, 22311}, {25000, 25001}} {
+		cases = append(cases, fileCase{Writer: "ours", W: wl[0], Chunker: "size-1", L: wl[1], K: 1, Pattern: "distinct"})
+	}
 	groups := groupByWidth(cases)
 	var widths []int
 	for w := range groups {
